@@ -603,6 +603,13 @@ def r09d(ck, prog):
                 r0 = rhs.strip(casts=True)
                 if r0.k == "CallExpr" and r0.callee in ("atof", "strtod", "strtof", "strtold"):
                     continue
+                fty = next((f["ty"] for f in prog.records.get("parameters", {}).get("fields", []) if f["name"] == p), "")
+                if r0.k == "CallExpr" and r0.callee in ("atoi", "atol", "atoll", "strtol", "strtoul", "strtoll") and fty in ("float", "double"):
+                    ck.violation("R09d", "R09d/%s/%s-parse" % (F.name, p), where,
+                                 "--%s is a %s but its argument is parsed with %s: the fraction is cut off, '--%s 2.75' runs with 2 and the "
+                                 "explicit default of a type whose default has a fraction no longer reproduces the default run" % (
+                                     p, fty, r0.callee, p), prog.config)
+                    continue
                 H = prog.functions.get(r0.callee) if r0.k == "CallExpr" and r0.callee else None
                 if H is None or H.body is None:
                     raise AnalysisBroken("R09d: how --%s turns its argument into a number is not understood (%s)" % (p, rhs.text()[:40]))
